@@ -1,0 +1,125 @@
+package linter
+
+// CodeMask classifies every byte of sql: mask[i] is true when byte i is plain
+// code and false when it lies inside a string literal ('...' with a doubled
+// quote for a quote - a backslash is not an escape here, exactly as in the
+// per-line scanners this replaces - and $tag$...$tag$), a quoted identifier ("..." or `...`) or a
+// comment (-- to end of line, /* ... */). Delimiters belong to the element
+// they delimit. The blanks between the last visible character of a line
+// comment and the end of its line count as code: they are layout, not text.
+//
+// Text-based rules use the mask so that they neither report nor rewrite the
+// inside of literals, quoted identifiers and comments, whose content must be
+// preserved exactly - also when such an element spans several lines.
+func CodeMask(sql string) []bool {
+	mask := make([]bool, len(sql))
+	n := len(sql)
+	i := 0
+	for i < n {
+		c := sql[i]
+		switch {
+		case c == '\'':
+			j := i + 1
+			for j < n {
+				if sql[j] == '\'' {
+					if j+1 < n && sql[j+1] == '\'' {
+						j += 2
+						continue
+					}
+					j++
+					break
+				}
+				j++
+			}
+			i = j
+		case c == '"' || c == '`':
+			j := i + 1
+			for j < n {
+				if sql[j] == c {
+					if j+1 < n && sql[j+1] == c {
+						j += 2
+						continue
+					}
+					j++
+					break
+				}
+				if c == '"' && sql[j] == '\n' {
+					break // an unterminated quoted identifier ends with its line
+				}
+				j++
+			}
+			i = j
+		case c == '-' && i+1 < n && sql[i+1] == '-':
+			j := i
+			for j < n && sql[j] != '\n' {
+				j++
+			}
+			// trailing blanks (and a CR) before the line end are layout
+			k := j
+			for k > i && (sql[k-1] == ' ' || sql[k-1] == '\t' || sql[k-1] == '\r') {
+				k--
+				mask[k] = true
+			}
+			i = j
+		case c == '/' && i+1 < n && sql[i+1] == '*':
+			j := i + 2
+			for j < n {
+				if sql[j] == '*' && j+1 < n && sql[j+1] == '/' {
+					j += 2
+					break
+				}
+				j++
+			}
+			i = j
+		case c == '$':
+			// $tag$ ... $tag$ (tag may be empty); anything else is code
+			j := i + 1
+			for j < n && (sql[j] == '_' || sql[j] >= 'a' && sql[j] <= 'z' || sql[j] >= 'A' && sql[j] <= 'Z' || (j > i+1 && sql[j] >= '0' && sql[j] <= '9')) {
+				j++
+			}
+			if j < n && sql[j] == '$' {
+				tag := sql[i : j+1]
+				end := indexFrom(sql, tag, j+1)
+				if end >= 0 {
+					i = end + len(tag)
+					continue
+				}
+			}
+			mask[i] = true
+			i++
+		default:
+			mask[i] = true
+			i++
+		}
+	}
+	return mask
+}
+
+func indexFrom(s, sub string, from int) int {
+	for i := from; i+len(sub) <= len(s); i++ {
+		if s[i:i+len(sub)] == sub {
+			return i
+		}
+	}
+	return -1
+}
+
+// LineMask splits CodeMask by line (same splitting as strings.Split(sql, "\n"))
+// and also reports, for every line, whether its first position lies in code.
+func LineMask(sql string) (lines [][]bool, startsInCode []bool) {
+	mask := CodeMask(sql)
+	start := 0
+	inCode := true
+	for i := 0; i <= len(sql); i++ {
+		if i == len(sql) || sql[i] == '\n' {
+			lines = append(lines, mask[start:i])
+			startsInCode = append(startsInCode, inCode)
+			if i < len(sql) {
+				// the newline itself tells whether the next line starts inside an element
+				inCode = mask[i]
+			}
+			start = i + 1
+		}
+	}
+	return lines, startsInCode
+}
